@@ -1377,6 +1377,13 @@ def _has_empty(s):
     return isinstance(s, odl.ProductSpace) and (len(s) == 0 or any(_has_empty(x) for x in s.spaces))
 
 
+def _safe(f):
+    try:
+        return bool(f())
+    except Exception:
+        return False
+
+
 def probe_indexing(rng, tier, out):
     import odl
     n = 120 if tier == 'quick' else 700
@@ -1413,7 +1420,7 @@ def probe_indexing(rng, tier, out):
         # integer index (also negative): the component object itself
         if m:
             k = rng.randrange(-m, m)
-            out.append(C.Probe(oS[k] is oS.spaces[k] and oS[k, ] is oS.spaces[k], 'pspace-getitem-int',
+            out.append(C.Probe(_safe(lambda: oS[k] is oS.spaces[k] and oS[k, ] is oS.spaces[k]), 'pspace-getitem-int',
                                'pspace[k] and pspace[k,] are the k-th component',
                                _RP_HEAD + "S = %r\noS = H.build(S, ctx)\nk = %r\nok = oS[k] is oS.spaces[k] and oS[k,] is oS.spaces[k]\n" % (S, k)))
     # ---- element indexing commutes with asarray: tensors
